@@ -70,8 +70,19 @@ func compareTags(read string, f *FeatObs, want map[string]string, out *[]Symptom
 // features whose tag map satisfies RQ.Eval, in FeatureID.Less order. allSeen
 // resolves the don't-care `all` membership of points that lost their last tag.
 func ExpectedFind(ref *RefWorld, q wk.RQ, allSeen map[b6.FeatureID]bool) []b6.FeatureID {
-	var out []b6.FeatureID
-	for _, id := range ref.IDs() {
+	return NewExpecter(ref, allSeen).Find(q)
+}
+
+// Expecter evaluates many queries against one reference state.
+type Expecter struct {
+	ids     []b6.FeatureID
+	tags    []map[string]string
+	indexed []bool
+}
+
+func NewExpecter(ref *RefWorld, allSeen map[b6.FeatureID]bool) *Expecter {
+	e := &Expecter{ids: ref.IDs()}
+	for _, id := range e.ids {
 		f := ref.F[id]
 		indexed := true
 		switch f.All() {
@@ -80,7 +91,16 @@ func ExpectedFind(ref *RefWorld, q wk.RQ, allSeen map[b6.FeatureID]bool) []b6.Fe
 		case AllDontCare:
 			indexed = allSeen[id]
 		}
-		if q.Eval(id, f.PlainTags(), indexed) {
+		e.tags = append(e.tags, f.PlainTags())
+		e.indexed = append(e.indexed, indexed)
+	}
+	return e
+}
+
+func (e *Expecter) Find(q wk.RQ) []b6.FeatureID {
+	var out []b6.FeatureID
+	for i, id := range e.ids {
+		if q.Eval(id, e.tags[i], e.indexed[i]) {
 			out = append(out, id)
 		}
 	}
@@ -210,8 +230,9 @@ func Compare(o *Obs, ref *RefWorld, allSeen map[b6.FeatureID]bool) []Symptom {
 			add("each:missing", "EachFeature did not produce %s", IDName(id))
 		}
 	}
+	ex := NewExpecter(ref, allSeen)
 	for _, fo := range o.Find {
-		CompareFind(fo, ExpectedFind(ref, fo.Q, allSeen), &out)
+		CompareFind(fo, ex.Find(fo.Q), &out)
 		for i, f := range fo.Feats {
 			if f == nil {
 				add("find:nil-feature", "%s: Feature() is nil for %s", fo.Q, IDName(fo.IDs[i]))
